@@ -334,7 +334,7 @@ def run(chk: Check) -> None:
     chk.count("exhaustive-split-schedules", n_exh)
 
     # random well-formed bodies x schedules
-    n_bodies = 1500 if quick else 20000
+    n_bodies = 1500 if quick else 60000
     for i in range(n_bodies):
         B, body, lb = gen_body(rng)
         n = len(body)
@@ -362,7 +362,7 @@ def run(chk: Check) -> None:
                              {"boundary": B.hex(), "body": body.hex(), "buffer_size": bs, "reference": repr(ref)[:300], "got": repr(got)[:300]})
 
     # malformed stream: model vs implementation only (no property claim on malformed bodies)
-    n_mal = 1500 if quick else 20000
+    n_mal = 1500 if quick else 50000
     for _ in range(n_mal):
         B, body, _lb = gen_body(rng, malformed=True)
         n = len(body)
